@@ -11,7 +11,8 @@ RULE = ("corpus (figure 5.5, repaired-defect shapes) + every dead/alive pattern 
 ASSUMPTIONS = ["numeric theorems are about exact rationals (instance Q); binary64 is tied by bit-exact correspondence, "
                "the effect of rounding on the inequalities is not proved",
                "game value = sup of finite-horizon values (textbook characterisation, taken as definition)",
-               "closeness to the true value is proved only in residual form; the error form is false (known finding K1)"]
+               "closeness to the true value is proved only in residual form; the error form is false (known finding K1)",
+               "the Python predicates allow 1e-12 of binary64 slack above 1 (weights 0.4+0.2+0.3+0.1 add up to 1.0000000000000002)"]
 
 K1_WITNESS = dict(rewards=[0, 0, 0], players=[PR, PR, PR],
                   transition_list=[[(1 - 1e-7, 0), (1e-7, 1)], [(1, 1)], [(1, 2)]], final_states=[1])
@@ -69,7 +70,7 @@ def other_thresholds(ctx, games):
                 bad = "final state %d reports %r, not 1" % (s, p[s])
             elif s not in can and p[s] != 0:
                 bad = "state %d has no path to a final state but reports %r" % (s, p[s])
-            elif not (0 <= p[s] <= 1):
+            elif not (0 <= p[s] <= 1 + 1e-12):
                 bad = "state %d reports %r outside [0,1]" % (s, p[s])
         bad = bad or residual_problem(g, p, can, thr)
         if bad:
@@ -91,7 +92,7 @@ def check_values(ctx, recs):
                 ctx.violation("final state %d reports %r, not 1" % (s, p[s]), r.inp(), probs=p)
             if s not in can and p[s] != 0:
                 ctx.violation("state %d has no path to a final state but reports %r" % (s, p[s]), r.inp(), probs=p)
-            if not (0 <= p[s] <= 1):
+            if not (0 <= p[s] <= 1 + 1e-12):      # binary64 weights such as 0.4+0.2+0.3+0.1 add up to 1.0000000000000002
                 ctx.violation("state %d reports %r outside [0,1]" % (s, p[s]), r.inp(), probs=p)
         # the loop's own guarantee (theorem C01_numeric): on every iterated state the Bellman residual lies in [0, threshold]
         bad = residual_problem(g, p, can, sc.THR)
